@@ -54,6 +54,8 @@ theorem varTyIn_none_of_not_mem (v : String) : (e : CExpr) → v ∉ exprNames e
   | .seqexpr _ _ args _ val, h => by
       simp only [exprNames, List.mem_append, not_or] at h
       simp only [varTyIn, varTyInL_none_of_not_mem v args h.1, varTyIn_none_of_not_mem v val h.2, Option.orElse_none]
+  | .callx _ _ args _ _, h => by simp only [exprNames] at h; simp only [varTyIn, varTyInL_none_of_not_mem v args h]
+  | .xmacro _ _ _, _ => by simp only [varTyIn]
 theorem varTyInL_none_of_not_mem (v : String) : (es : List CExpr) → v ∉ exprsNames es → varTyInL v es = none
   | [], _ => by simp only [varTyInL]
   | a :: as, h => by
